@@ -1,9 +1,9 @@
 SPECIFICATION Spec
 CONSTANTS
-  P = 120121
-  BigN = 120120
-  GRe = 99425
-  GIm = 73526
+  P = 110881
+  BigN = 110880
+  GRe = 83597
+  GIm = 26351
   G <- GPair
   MaxLen = 200
 INVARIANT Inv
